@@ -857,6 +857,9 @@ func (r *Run) checkState() *wx.Failure {
 		if len(ids) != nids || mask.TotalBitsSet() != nids {
 			return r.fail("C01", "ids-extra", fmt.Sprintf("Ids(%v) = %v, expected %d components", e.H, ids, nids))
 		}
+		// World.Ids returns a copy "that can be manipulated safely": do so (anything the library still shares with it shows up
+		// in the next comparisons)
+		scribble(ids)
 		if rel := m.relOf(e.Has); rel >= 0 {
 			t := w.Relations().Get(e.H, r.ids[rel])
 			if t != e.Target {
@@ -1049,6 +1052,14 @@ func (r *Run) deepIter(name string, mk func() ecs.Query, seq []ecs.Entity) *wx.F
 		if len(qi) != len(wi) {
 			return bad("ids", fmt.Sprintf("Ids() at %v = %v, world says %v", e, qi, wi))
 		}
+		for k := range qi {
+			if qi[k] != wi[k] {
+				return bad("ids", fmt.Sprintf("Ids() at %v = %v, world says %v", e, qi, wi))
+			}
+		}
+		// both are documented to be copies the caller may modify
+		scribble(qi)
+		scribble(wi)
 		for ci := range r.cfg.Comps {
 			id := r.ids[ci]
 			if q.Has(id) != w.Has(e, id) {
@@ -1453,6 +1464,13 @@ func (r *Run) slotOfIn(m *Model, h ecs.Entity) int {
 		}
 	}
 	return -1
+}
+
+// scribble overwrites a slice of IDs that the library handed out as a copy.
+func scribble(ids []ecs.ID) {
+	for i := range ids {
+		ids[i] = idOf(uint8(250 - i))
+	}
 }
 
 func popcount(b uint8) int {
